@@ -122,6 +122,9 @@ def ncells(shape):
     return n
 
 
+SPLIT_MASKS = False      # set per job: decide every mask bit up front (keeps the arithmetic free of mask ites)
+
+
 def sym_array(ctx, name, shape, kind='f', rep='ma', fuzzy=False):
     n = ncells(shape)
     vs = [ctx.real('%s.d%d' % (name, i), integer=(kind == 'i')) for i in range(n)]
@@ -133,6 +136,8 @@ def sym_array(ctx, name, shape, kind='f', rep='ma', fuzzy=False):
         for i, v in enumerate(vs):
             rng = z3.And(v >= -1, v <= 1)
             ctx.assume(z3.Or(ms[i], rng) if ms else rng)
+    if ms and SPLIT_MASKS:
+        ms = [z3.BoolVal(ctx.decide(b)) for b in ms]
     if rep == 'nd':
         arr = d
     else:
@@ -721,6 +726,8 @@ def judge(o, env_inputs, reps, ctx=None):
 # ------------------------------------------------------------------ generic job runner
 def run_scenario_job(scenario, cfg, prop, seed=0, max_paths=6000, validate=True, ob_timeout=60000, deadline_s=None):
     import time
+    global SPLIT_MASKS
+    SPLIT_MASKS = bool(cfg.get('split_masks'))
     t0 = time.time()
     stats = Stats()
     on_path = make_on_path(cfg, stats, prop, validate=validate)
@@ -883,3 +890,118 @@ def default_variants(spec, tier='quick'):
             sets += [[o] for o in optnum]
         vs = [dict(v, omit=list(v.get('omit', [])) + s_) for v in vs for s_ in sets]
     return vs
+
+
+# ------------------------------------------------------------------ documented preconditions and oracle obligations
+STAT_CMDS = ('Normalize', 'NormalizeZScore', 'NormalizeCurveZScore', 'NormalizeMeanToMid', 'CvtToFuzzyZScore',
+             'CvtToFuzzyCurveZScore', 'CvtToFuzzyMeanToMid')
+
+
+def uses_statistics(spec, kw):
+    if spec.name in STAT_CMDS:
+        return True
+    if spec.name == 'CvtToFuzzy' and ('TrueThreshold' not in kw or 'FalseThreshold' not in kw):
+        return True
+    return False
+
+
+def assume_preconditions(ctx, spec, kw, cfg):
+    """only what the documentation / property text states (A-pre in DESIGN.md)"""
+    hs = arrays_of(kw)
+    if uses_statistics(spec, kw):
+        # at least two distinct non-missing values (otherwise thresholds coincide: documented error / undefined)
+        for h in hs:
+            d, m, rep = arr_cells(h.arr)
+            m = m if m is not None else [z3.BoolVal(False)] * len(d)
+            pairs = [z3.And(z3.Not(m[i]), z3.Not(m[j]), d[i] != d[j]) for i in range(len(d)) for j in range(i + 1, len(d))]
+            ctx.assume(z3.Or(*pairs) if pairs else z3.BoolVal(False))
+    for zname in ('ZScoreValues',):
+        if zname in kw:
+            zs = [symx.lift(z) for z in kw[zname]]
+            if len(zs) > 1:
+                ctx.assume(z3.Distinct(*zs))
+    if 'TrueThresholdZScore' in kw and 'FalseThresholdZScore' in kw:
+        ctx.assume(symx.lift(kw['TrueThresholdZScore']) != symx.lift(kw['FalseThresholdZScore']))
+    if spec.name == 'NormalizeZScore':
+        s = symx.lift(kw.get('StartVal', 0))
+        e = symx.lift(kw.get('EndVal', 1))
+        ctx.assume(s < e)
+    if cfg.get('ignore0_pre') and 'IgnoreZeros' in kw and kw['IgnoreZeros']:
+        pass
+
+
+def snapshot_inputs(kw):
+    """[(data terms, mask terms-or-None, kind)] for every array input, in order, taken BEFORE the run"""
+    out = []
+    for h in arrays_of(kw):
+        d, m, rep = arr_cells(h.arr)
+        out.append((list(d), list(m) if m is not None else None, h.arr.kind))
+    return out
+
+
+def union_mask(snap, n):
+    ms = [s[1] for s in snap if s[1] is not None]
+    return [z3.Or(*[m[i] for m in ms]) if ms else z3.BoolVal(False) for i in range(n)]
+
+
+def oracle_obligations(spec, kw, snap, run, want=('mask', 'value', 'kind', 'type', 'shape'), in_shape=None):
+    """obligations of one run against the reference semantics (templates over the run's placeholders)"""
+    from . import oracle
+    obs = []
+    j = run.idx
+    if run.outcome != 'ok':
+        return obs, None
+    if 'type' in want:
+        obs.append(fact_ob('result is a masked array (a plain array has lost its missing cells)', ('masked_result', j), group='type'))
+    if 'shape' in want and in_shape is not None:
+        obs.append(fact_ob('result shape equals input shape', ('shape_is', j, list(in_shape)), group='shape'))
+    n = len(snap[0][0]) if snap else 0
+    if not isinstance(run.result, symnp.ndarray) or len(run.pd) != n:
+        return obs, None
+    params = {k: v for k, v in kw.items() if not isinstance(v, Holder) and not (isinstance(v, list) and v and isinstance(v[0], Holder))}
+    ref = oracle.reference(spec.name, [(s[0], s[1]) for s in snap], params)
+    um = union_mask(snap, n)
+    if ref is None:
+        if 'mask' in want:
+            for i in range(n):
+                obs.append(term_ob('cell %d: missing in an input => missing in the result' % i, z3.Implies(um[i], run.pm[i]), group='mask-superset'))
+        return obs, None
+    pre = z3.And(*ref['defs']) if ref['defs'] else None
+
+    def wrap(t):
+        return z3.Implies(pre, t) if pre is not None else t
+    for i in range(n):
+        und = ref['undefined'][i]
+        if 'mask' in want:
+            obs.append(term_ob('cell %d: missing <=> missing in an input or operation undefined' % i,
+                               wrap(run.pm[i] == z3.Or(um[i], und)), group='mask'))
+        if 'value' in want:
+            margin = z3.And(z3.Not(run.pm[i]), z3.Or(run.pd[i] - ref['vals'][i] > R_MARGIN, ref['vals'][i] - run.pd[i] > R_MARGIN))
+            obs.append(term_ob('cell %d: value == reference' % i, wrap(z3.Or(run.pm[i], run.pd[i] == ref['vals'][i])), group='value',
+                               neg=(z3.And(pre, margin) if pre is not None else margin)))
+    if 'kind' in want:
+        ek = oracle.expected_kind(spec.name, ref['kind'], [s[2] for s in snap], params)
+        if ek is not None:
+            obs.append(fact_ob('result element type is %s' % {'i': 'integer', 'f': 'float'}[ek], ('kind_is', j, ek), group='dtype'))
+    return obs, ref
+
+
+R_MARGIN = z3.RealVal(1) / 1024
+
+
+def equal_results_obs(ra, rb, label, group, perm=None):
+    """obligations: runs ra and rb have equal masks and equal values at non-missing cells (rb cell i
+    corresponds to ra cell perm[i] when a permutation is given)"""
+    obs = []
+    if ra.outcome != 'ok' or rb.outcome != 'ok':
+        return obs
+    if len(ra.pd) != len(rb.pd):
+        return obs
+    n = len(ra.pd)
+    for i in range(n):
+        a = perm[i] if perm is not None else i
+        obs.append(term_ob('%s: cell %d missing alike' % (label, i), ra.pm[a] == rb.pm[i], group=group + '-mask'))
+        diff = ra.pd[a] - rb.pd[i]
+        obs.append(term_ob('%s: cell %d equal value' % (label, i), z3.Or(ra.pm[a], ra.pd[a] == rb.pd[i]), group=group + '-value',
+                           neg=z3.And(z3.Not(ra.pm[a]), z3.Not(rb.pm[i]), z3.Or(diff > R_MARGIN, -diff > R_MARGIN))))
+    return obs
